@@ -10,12 +10,6 @@ use cvh::ops::{Program, Step};
 use std::io::{BufRead, Write};
 use std::path::PathBuf;
 
-fn marker(s: &str) {
-    unsafe {
-        libc::write(1023, s.as_ptr() as *const libc::c_void, s.len());
-    }
-}
-
 fn main() {
     cvh::exec::install_panic_hook();
     cvh::exec::mark_worker_thread();
@@ -72,13 +66,8 @@ fn exec(a: &[String]) {
     let mut outf = std::fs::OpenOptions::new().create(true).append(true).open(&out).expect("open out");
     let to = to.min(p.steps.len());
     for i in from..to {
-        if markers && !p.steps[i].op.is_harness_side() {
-            marker(&format!("CVH:BEGIN:{i}"));
-        }
+        cvh::exec::set_window_markers(if markers { Some(i) } else { None });
         let r = run_step(&ctx, &p.steps[i]);
-        if markers && !p.steps[i].op.is_harness_side() {
-            marker(&format!("CVH:END:{i}"));
-        }
         let line = serde_json::json!({"i": i, "out": r.out, "t0": r.t0.to_string(), "t1": r.t1.to_string()});
         let mut text = line.to_string();
         text.push('\n');
